@@ -223,7 +223,7 @@ theorem cmpIntFloat_exact (a : Int64) (b : F) (y : Ext) (hb : b.ext = some y) :
     · simpa [intExt, Ext.cmp] using cmpIntFloat_fin_nonneg a s m e he
     · simpa [intExt, Ext.cmp] using cmpIntFloat_fin_neg a s m e (by omega)
 
-theorem cmpIntFloat_nan (a : Int64) : cmpIntFloat a .nan = none := by simp [cmpIntFloat, F.isNan]
+theorem cmpIntFloat_nan (a : Int64) (s : Bool) : cmpIntFloat a (.nan s) = none := by simp [cmpIntFloat, F.isNan]
 
 theorem i64cmp_exact (a b : Int64) : i64cmp a b = Ext.cmp (intExt a) (intExt b) := by
   simp [i64cmp, intExt, Ext.cmp, Dy.cmp, Dy.scaled]
@@ -273,9 +273,16 @@ theorem Res.bind_safe (r : Res) (k : Value → Res) (hr : r.safe) (hk : ∀ v, (
 theorem cmpVals_safe (op : CmpOp) (l r : Value) : (cmpVals .fixed op l r).safe := by
   unfold cmpVals; split <;> simp
 
+theorem cmpValsExpr_safe (op : CmpOp) (l r : Value) : (cmpValsExpr .fixed op l r).safe := by
+  unfold cmpValsExpr; split <;> simp [cmpVals_safe]
+
+theorem cmpValsExpr_num (op : CmpOp) (l r : Value) (x y : Ext) (hl : numExt l = some x) (hr : numExt r = some y) :
+    cmpValsExpr .fixed op l r = cmpVals .fixed op l r := by
+  cases l <;> simp [numExt] at hl <;> cases r <;> simp [numExt] at hr <;> simp [cmpValsExpr]
+
 theorem binop_safe (fo : FOps) (op : BinOp) (l r : Value) : (binop fo .fixed op l r).safe := by
   unfold binop
-  split <;> (try split) <;> (try split) <;> simp_all [iadd, isub, imul, idiv, irem, cmpVals_safe]
+  split <;> (try split) <;> (try split) <;> simp_all [iadd, isub, imul, idiv, irem, cmpVals_safe, cmpValsExpr_safe]
 
 theorem unop_safe (op : UnOp) (v : Value) : (unop .fixed op v).safe := by
   unfold unop; split <;> simp [ineg]
@@ -400,7 +407,7 @@ theorem bIs_safe (p : Value → Bool) (args : List Value) : (bIs p args).safe :=
 theorem builtinTable_safe (fo : FOps) : ∀ p ∈ builtinTable fo .fixed, ∀ args, (p.2 args).safe := by
   intro p hp args
   simp only [builtinTable, List.mem_cons, List.mem_nil_iff, or_false] at hp
-  rcases hp with h | h | h | h | h | h | h | h | h | h | h | h | h | h | h | h | h | h | h | h | h | h | h | h | h | h | h | h | h | h | h | h | h | h | h | h | h | h | h | h <;> subst h <;> simp only []
+  rcases hp with h | h | h | h | h | h | h | h | h | h | h | h | h | h | h | h | h | h | h | h | h | h | h | h | h | h | h | h | h | h | h | h | h | h | h | h | h | h | h | h | h | h | h | h | h | h | h | h | h | h <;> subst h <;> simp only []
   · unfold bAbs; split <;> simp [iabs_safe]
   · unfold bFn1; split <;> simp
   · unfold bFn1; split <;> simp
@@ -439,7 +446,17 @@ theorem builtinTable_safe (fo : FOps) : ∀ p ∈ builtinTable fo .fixed, ∀ ar
   · unfold bEndsWith; split <;> simp
   · unfold bSubstring; split <;> simp [substrCore_safe]
   · unfold bTypeOf; split <;> simp
-  all_goals exact bIs_safe _ _
+  iterate 7 exact bIs_safe _ _
+  · unfold bSort; split <;> simp
+  · unfold bToString; split <;> simp
+  · unfold bTrim; split <;> simp
+  · unfold bLower; split <;> simp
+  · unfold bLower; split <;> simp
+  · unfold bUpper; split <;> simp
+  · unfold bUpper; split <;> simp
+  · unfold bSplit; split <;> simp
+  · unfold bJoin; split <;> simp
+  · unfold bReplace; split <;> simp
 
 theorem builtin_safe (fo : FOps) (name : String) (args : List Value) : (builtin fo .fixed name args).safe := by
   unfold builtin
